@@ -59,11 +59,36 @@ pub fn dat_bytes(d: u8) -> Vec<u8> {
         // pairs that differ only by a trailing 00 byte: 200+k = [k+1], 220+k = [k+1, 00]
         n @ 200..=219 => vec![n - 199],
         n @ 220..=239 => vec![n - 219, 0],
+        // big data (lengths around the one- and two-byte length boundaries): 250 = 255 bytes, 251 = 256,
+        // 252 = 4097, 253 = 65 537; contents vary with the position and differ between the four
+        n @ 250..=253 => big_bytes(n),
         // per-vertex distinct data for the tree enumerators: inline and heap
         n @ 100..=149 => vec![n; 3],
         n @ 150..=199 => vec![n; 9],
         n => vec![n, n.wrapping_add(1)],
     }
+}
+
+pub const BIG_FIRST: u8 = 250;
+pub const BIG_LAST: u8 = 253;
+
+pub fn big_len(d: u8) -> usize {
+    match d {
+        250 => 255,
+        251 => 256,
+        252 => 4097,
+        _ => 65_537,
+    }
+}
+
+pub fn big_bytes(d: u8) -> Vec<u8> {
+    (0..big_len(d)).map(|i| ((i * 31 + i / 256) as u8).wrapping_add(d)).collect()
+}
+
+/// The menu index of a big datum, if these bytes are one (used to keep state keys short without
+/// losing information: the four big values are pairwise different).
+pub fn big_index(b: &[u8]) -> Option<u8> {
+    (BIG_FIRST..=BIG_LAST).find(|d| big_len(*d) == b.len() && big_bytes(*d) == b)
 }
 
 /// Data menu: the `Hex` values, in the representation the menu prescribes.
